@@ -125,7 +125,7 @@ Observe(i) ==
 Do(i, S) ==
   /\ LET dec == IF MsgType(i) = "" THEN "allow" ELSE Decision(Cur, i.s, MsgType(i)) IN
      IF dec \in {"allow", "rewrite"} THEN Commit(S)
-     ELSE Commit(RefuseFx(Cur, i.s, TypeCode(MsgType(i)), IF i.op = "yield" THEN i.id ELSE i.req, dec, i.op = "publish" /\ ~i.o.ack))
+     ELSE Commit(RefuseFx(Cur, i.s, TypeCode(MsgType(i)), IF i.op = "yield" THEN i.id ELSE i.req, dec, SilentRefusal(i)))
   /\ Observe(i)
 
 \* --------------------------------------------------------------------------
